@@ -26,6 +26,9 @@ pub struct World<'a> {
     pub out: &'a mut Out,
     pub events: u64,
     pub tag: String,
+    pub cur_base: u64,
+    /// lowest height the history tree of each state is expected to hold (0 unless the lineage was fabricated at a height)
+    pub bases: Vec<u64>,
 }
 
 pub fn res_s<T>(r: &std::thread::Result<Result<T, StateError>>) -> String {
@@ -45,11 +48,13 @@ pub fn action_j(a: &Option<ProposerAction>) -> J {
 
 impl<'a> World<'a> {
     pub fn new(out: &'a mut Out, tag: &str) -> Self {
-        World { db: Database::new(InMemoryCas::default()), states: vec![], names: Names::default(), out, events: 0, tag: tag.to_string() }
+        World { db: Database::new(InMemoryCas::default()), states: vec![], names: Names::default(), out, events: 0, tag: tag.to_string(), cur_base: 0, bases: vec![] }
     }
 
     fn push(&mut self, s: St) -> usize {
         self.states.push(s);
+        let b = self.cur_base;
+        self.bases.push(b);
         self.states.len() - 1
     }
 
@@ -69,11 +74,13 @@ impl<'a> World<'a> {
     pub fn obs_u(&self, u: &U) -> J {
         let mut o = lj::view_j(&u.verif_view(), &self.names);
         o["sealed"] = json!(false);
+        o["histBase"] = json!(self.cur_base);
         o
     }
     pub fn obs_s(&self, s: &S) -> J {
         let mut o = lj::view_j(&s.verif_view(), &self.names);
         o["sealed"] = json!(true);
+        o["histBase"] = json!(self.cur_base);
         let mut full: Vec<String> = s.transactions().map(|t| hex::encode(tmelcrypt::hash_single(&stdcode::serialize(t).unwrap()).0)).collect();
         full.sort();
         o["txfull"] = json!(full);
@@ -224,6 +231,30 @@ impl<'a> World<'a> {
         out
     }
 
+    /// agreement claims requested by the workload: extra.agreeKey (+ extra.prop) or extra.agree = [[key, prop], ...];
+    /// the value is the call's result plus a digest of the whole observed post-state
+    pub fn agree_claims(extra: &J, res: &str, post: &J) -> Vec<J> {
+        let dg = hex::encode(&tmelcrypt::hash_single(serde_json::to_vec(post).unwrap()).0[..12]);
+        let val = format!("{}:{}", if extra.get("fold").is_some() { "ok" } else { res }, dg);
+        let clause = |p: &str| match p {
+            "C08" => "a state rebuilt from its block accepts / rejects differently or reaches a different state or header than the original",
+            "C06" => "the same block delivered again gives a different result",
+            _ => "the outcome of applying a set of transactions depends on their order / thread count, or differs from applying them one at a time",
+        };
+        let mut out = vec![];
+        if let Some(k) = extra.get("agreeKey").and_then(|k| k.as_str()) {
+            let p = extra.get("prop").and_then(|p| p.as_str()).unwrap_or("C03");
+            out.push(json!([k, val, p, clause(p)]));
+        }
+        if let Some(a) = extra.get("agree").and_then(|a| a.as_array()) {
+            for kp in a {
+                let p = kp[1].as_str().unwrap_or("C03");
+                out.push(json!([kp[0], val, p, clause(p)]));
+            }
+        }
+        out
+    }
+
     /// apply_tx_batch on a clone of state `sid`; returns (new state id, accepted)
     pub fn batch(&mut self, sid: usize, txs: &[Transaction], threads: usize, extra: J) -> (usize, bool) {
         for t in txs {
@@ -244,16 +275,16 @@ impl<'a> World<'a> {
             }
         }));
         let res = res_s(&r);
+        if std::env::var("HARNESS_DEBUG").is_ok() {
+            if let Ok(Err(e)) = &r {
+                eprintln!("batch rejected: {:?} ({})", e, extra);
+            }
+        }
         let after = if res == "panic" { pre_u.clone() } else { work };
         let post = self.obs_u(&after);
         let ok = res == "ok";
         let nid = self.push(St::U(after));
-        let mut claims: Vec<J> = vec![];
-        if let Some(k) = extra.get("agreeKey").and_then(|k| k.as_str()) {
-            let dg = hex::encode(&tmelcrypt::hash_single(serde_json::to_vec(&post).unwrap()).0[..12]);
-            claims.push(json!([k, format!("{}:{}", if extra.get("fold").is_some() { "ok" } else { res.as_str() }, dg), "C03",
-                               "the outcome of applying a set of transactions depends on their order / thread count, or differs from applying them one at a time"]));
-        }
+        let claims = Self::agree_claims(&extra, &res, &post);
         self.emit(json!({"ev": "batch", "preid": sid, "postid": nid, "pre": pre, "txs": txj, "lastHeader": lj::header_j(&lh), "threads": threads,
                          "bytesOf": bytes_of, "hdrs": hdrs, "claims": claims, "res": res, "post": post, "x": extra}));
         (nid, ok)
@@ -285,7 +316,8 @@ impl<'a> World<'a> {
             Ok(s) => {
                 let post = self.obs_s(&s);
                 let nid = self.push(St::S(s));
-                let claims = Self::root_claims(&post);
+                let mut claims = Self::root_claims(&post);
+                claims.extend(Self::agree_claims(&extra, "ok", &post));
                 self.emit(json!({"ev": "seal", "preid": sid, "postid": nid, "pre": pre, "action": action_j(&action), "blocktxs": blocktxs, "rewardid": rewardid,
                                  "claims": claims, "res": "ok", "post": post, "x": extra}));
                 Some(nid)
@@ -359,10 +391,46 @@ impl<'a> World<'a> {
             }
             _ => (pre.clone(), sid),
         };
-        self.emit(json!({"ev": "block", "preid": sid, "postid": nid, "pre": pre, "basis": basis_obs, "txs": txj, "lastHeader": lh,
+        let mut claims = Self::agree_claims(&extra, &res, &post);
+        if res == "ok" {
+            claims.extend(Self::root_claims(&post));
+        }
+        self.emit(json!({"ev": "block", "claims": claims, "preid": sid, "postid": nid, "pre": pre, "basis": basis_obs, "txs": txj, "lastHeader": lh,
                          "header": lj::header_j(&blk.header), "action": action_j(&blk.proposer_action), "rewardid": rewardid,
                          "bytesOf": bytes_of, "hdrs": hdrs, "threads": threads, "res": res, "post": post, "x": extra}));
         (nid, res == "ok")
+    }
+
+    /// Fabricates, through the public from_block, a sealed state with the coins / pools / stakes of sealed state `sid`
+    /// but at height `h` (its history tree holds one predecessor header at h - 1).  Used to reach epoch boundaries
+    /// and TIP activation heights.
+    pub fn jump(&mut self, sid: usize, h: u64) -> usize {
+        let s = self.sealed(sid).clone();
+        let pre = self.obs_s(&s);
+        let hd = s.header();
+        let prev = Header { height: BlockHeight(h - 1), ..hd };
+        self.names.height(h - 1);
+        self.names.height(h);
+        // keep the entries the history already has (mints look up the header at a coin's creation height)
+        let mut hist = s.raw_history_smt();
+        hist.insert(tmelcrypt::hash_single(&stdcode::serialize(&BlockHeight(h - 1)).unwrap()).0, &stdcode::serialize(&prev).unwrap());
+        let nh = Header { height: BlockHeight(h), previous: prev.hash(), history_hash: tmelcrypt::HashVal(hist.root_hash()), ..hd };
+        let blk = Block { header: nh, transactions: Default::default(), proposer_action: None };
+        let t = S::from_block(&blk, &s.raw_stakes(), &self.db);
+        self.cur_base = h - 1;
+        let post = self.obs_s(&t);
+        let nid = self.push(St::S(t));
+        self.emit(json!({"ev": "jump", "preid": sid, "postid": nid, "pre": pre, "res": "ok", "post": post, "to": h}));
+        nid
+    }
+
+    /// voting power as the stake set reports it (C13 / C14 observation)
+    pub fn votes(&mut self, sid: usize, epoch: u64, keys: &[tmelcrypt::Ed25519PK]) {
+        let s = self.sealed(sid).clone();
+        let st = s.raw_stakes();
+        let rows: Vec<J> = keys.iter().map(|k| json!({"pk": hex::encode(k.0), "votes": js::limbs_u128(st.votes(epoch, *k))})).collect();
+        let obs = self.obs_s(&s);
+        self.emit(json!({"ev": "votes", "preid": sid, "pre": obs, "epoch": epoch, "rows": rows, "total": js::limbs_u128(st.total_votes(epoch)), "res": "ok"}));
     }
 
     /// from_block(to_block, raw_stakes, db): the restarted twin of sealed state `sid`
